@@ -39,9 +39,66 @@ type vOwn struct {
 	nviews  int
 	nfree   int
 	nmalloc int
+	w       *vWorld  // the buffers of this sequence (free-time check)
+	cur     []string // the op being executed
+	atFree  []string // problems seen at the moment of a Free during the current op
 }
 
 func newVOwn() *vOwn { return &vOwn{split: map[int]bool{}} }
+
+// attach makes this oracle the observer of the harness allocator's Free calls for world w.
+func (o *vOwn) attach(w *vWorld) {
+	if o == nil {
+		return
+	}
+	o.w = w
+	mcache.VerifOnFree = o.onFree
+}
+
+// onFree runs at the very moment netpoll hands a block back to the pool (before it is logged and poisoned).
+// "... returned to the pool ... only after the data in it has been consumed": no live buffer may still owe a
+// reader bytes that lie in this block, i.e. no node between its read cursor and its write node (inclusive) with
+// readable or pending bytes sits on the block.  (A check after the op cannot see this when the release also
+// clears the node's slice.)  Close discards the data of the buffer being closed at the caller's request: exempt.
+func (o *vOwn) onFree(buf []byte) {
+	if o == nil || o.w == nil || cap(buf) == 0 {
+		return
+	}
+	full := buf[:cap(buf)]
+	lo := uintptr(unsafe.Pointer(&full[0]))
+	hi := lo + uintptr(cap(buf))
+	seen := map[int]bool{}
+	for _, id := range o.w.order {
+		vb := o.w.bufs[id]
+		if vb == nil || vb.b == nil || vb.b.read == nil || seen[id] {
+			continue
+		}
+		seen[id] = true
+		if len(o.cur) >= 2 && o.cur[0] == "close" && o.cur[1] == fmt.Sprint(id) {
+			continue
+		}
+		n := 0
+		for nd := vb.b.read; nd != nil && n < 100000; nd = nd.next {
+			n++
+			if cap(nd.buf) > 0 && (nd.off < len(nd.buf) || len(nd.buf) < nd.malloc) {
+				p := uintptr(unsafe.Pointer(&nd.buf[:1][0]))
+				if p >= lo && p < hi {
+					bid, _, _ := mcache.VerifBlockOf(full)
+					tg := ""
+					if o.split[bid] {
+						tg = "[D4-split-block]"
+					}
+					o.atFree = append(o.atFree, fmt.Sprintf("free-of-unconsumed-data block=%d buf=%d readable=%d pending=%d%s",
+						bid, id, len(nd.buf)-nd.off, nd.malloc-len(nd.buf), tg))
+					break
+				}
+			}
+			if nd == vb.b.write {
+				break
+			}
+		}
+	}
+}
 
 func (o *vOwn) view(owner int, p []byte, perm bool) {
 	if o == nil || len(p) == 0 {
@@ -91,6 +148,8 @@ func (o *vOwn) after(w *vWorld) string {
 		return ""
 	}
 	var ev, probs []string
+	probs = append(probs, o.atFree...)
+	o.atFree = nil
 	tag := func(block int) string {
 		if o.split[block] {
 			return "[D4-split-block]"
